@@ -116,7 +116,9 @@ class Gen:
         c = r.choice(["getmut", "tryinsert", "entry_or_insert", "entry_insert", "entry_remove", "entry_and_modify",
                       "entry_drop", "retain", "extend", "drain", "extractif", "iter", "iterfold", "reserve",
                       "tryreserve", "shrinkto", "shrinktofit", "clear", "len", "capacity", "allocsize", "withcap",
-                      "dropmap", "iter", "iterfold", "retain", "extractif", "intoiter", "intokeys", "intovalues", "fromiter"])
+                      "dropmap", "iter", "iterfold", "retain", "extractif", "intoiter", "intokeys", "intovalues", "fromiter",
+                      "entry_replace", "entry_and_replace", "raw_replace", "raw_and_replace", "eref_or_insert", "eref_insert",
+                      "raw_or_insert", "raw_insert", "raw_remove", "rentry_or_insert", "rentry_insert", "rentry_remove"])
         if force:
             c = force
         k = self.present() if r.random() < 0.5 and self.contents else self.anykey()
@@ -126,9 +128,22 @@ class Gen:
         elif c in ("tryinsert", "entry_or_insert"):
             s, v = self.st(), self.val(); self.emit(f"{c} {k} {s} {v}")
             if k not in self.contents: self.contents[k] = (s, v)
-        elif c == "entry_insert":
+        elif c in ("eref_or_insert", "raw_or_insert", "rentry_or_insert"):
+            s, v = self.st(), self.val(); self.emit(f"{c} {k} {s} {v}")
+            if k not in self.contents: self.contents[k] = (s, v)
+        elif c in ("entry_insert", "eref_insert", "raw_insert", "rentry_insert"):
             s, v = self.st(), self.val(); self.emit(f"{c} {k} {s} {v}")
             self.contents[k] = (self.contents[k][0] if k in self.contents else s, v)
+        elif c in ("raw_remove", "rentry_remove"):
+            self.emit(f"{c} {k} {self.st()}"); self.contents.pop(k, None)
+        elif c in ("entry_replace", "entry_and_replace", "raw_replace", "raw_and_replace"):
+            # replace_entry_with: Some(v) = overwrite in place (removed and put back), None = remove
+            s, v = self.st(), self.val()
+            some = r.random() < 0.7
+            self.emit(f"{c} {k} {s} {'some' if some else 'none'} {v if some else 0}")
+            if k in self.contents:
+                if some: self.contents[k] = (self.contents[k][0], v)
+                else: self.contents.pop(k)
         elif c == "entry_remove":
             self.emit(f"{c} {k} {self.st()}"); self.contents.pop(k, None)
         elif c == "entry_and_modify":
@@ -225,6 +240,153 @@ def make_shrink_script(rng, name, kind=None):
     for k in rng.sample(range(n + 4), min(4, n)):
         g.emit(rng.choice(["get", "contains", "getkv"]) + f" {k}")
     return f"=== {name} plan={plan} nkeys={n + 6}\n" + "\n".join(g.lines) + "\n"
+
+def make_rehash_script(rng, name, table=False, kind=None, fresh="any", switch_rule=None, arm=None):
+    """In-place rehash with SWAPS: fill a table of 16 / 32 / 64 / 128 buckets exactly to capacity under
+    hashes whose home positions are spread over the table (well mixed, sequential, or crowded at the end
+    of the table so that probe windows wrap), remove more than half one by one (tombstones inside full
+    runs), insert new keys until growth_left is used up and the next insertion rehashes in place: elements
+    whose ideal slot holds a not-yet-processed element are swapped and the displaced element is re-hashed
+    in turn.  The fresh keys come in through every insertion API (`fresh`): insert, the entry families,
+    reserve / try_reserve + insert, extend; optionally the hasher turns inconsistent first (`switch_rule`)
+    or a callback fault is armed before some insertions (`arm`).  Afterwards every key is looked up."""
+    kind = kind or (rng.choice(["table-plain", "table-drop", "table-6"]) if table else rng.choice(["map-drop", "map-plain"]))
+    plan = rng.choice(["endmix", "endmix", "endmix", "wrap", "wrap", "mix", "seq", "lowpos", "twotags", "zero"])
+    n = rng.choice([14, 28, 28, 56, 56, 112])
+    nb = n * 8 // 7
+    salt = rng.getrandbits(32)
+    def hv(k):
+        if plan == "endmix":      # homes in the last 24 buckets of the table, well-mixed tags
+            return (mix64(k ^ salt) & ~0xFFFF & M64) | (nb - 1 - (mix64(k + salt) % min(24, nb)))
+        return plan_hash(plan, k, rng, salt)
+    nk = 2 * n + 8
+    lines = [f"kind {kind}"] + [f"hash {k} {hv(k)}" for k in range(nk)]
+    stamp = [0]
+    def st():
+        stamp[0] += 1
+        return stamp[0]
+    def ins(k):
+        lines.append(f"tinsertunique {k} {st()} {k % 97}" if table else f"insert {k} {st()} {k % 97}")
+    def rem(k):
+        lines.append(f"tfindentryremove {k} id {k}" if table else f"remove {k}")
+    def get(k):
+        lines.append(f"tfind {k} id {k}" if table else f"get {k}")
+    MAPFORMS = ["insert", "insert", "entry_or_insert", "entry_insert", "tryinsert", "entry_and_modify", "rentry_or_insert", "rentry_insert",
+                "rentry_drop", "raw_or_insert", "raw_insert", "eref_or_insert", "eref_insert", "reserve", "tryreserve", "extend"]
+    def ins_fresh(k):
+        # HashTable::insert_unique reuses a tombstone without reserving; entry() and reserve(1) do
+        # reserve when growth_left is 0 -- that is what rehashes in place
+        if arm and rng.random() < 0.3:
+            lines.append(f"arm {arm} {rng.choice([0, 1, 2, 3, 5, 8, 13])}")
+        if not table:
+            c = rng.choice(MAPFORMS) if fresh == "any" else fresh
+            if c == "insert":
+                ins(k)
+            elif c in ("reserve", "tryreserve"):
+                lines.append(f"{c} 1"); ins(k)
+            elif c == "extend":
+                lines.append(f"extend {k}:{st()}:{k % 97}")
+            elif c == "entry_and_modify":
+                lines.append(f"entry_and_modify {k} {st()} 1 {k % 97}")
+            elif c == "rentry_drop":
+                lines.append(f"rentry_drop {k} {st()}"); ins(k)
+            else:
+                lines.append(f"{c} {k} {st()} {k % 97}")
+        else:
+            c = rng.choice(["entry", "entry", "reserve", "tryreserve"])
+            if c in ("reserve", "tryreserve"):
+                lines.append(f"t{c} 1"); ins(k)
+            else:
+                lines.append(f"{rng.choice(['tentryorinsert', 'tentryinsert'])} {k} {st()} {k % 97}")
+    lines.append(f"twithcap {n}" if table else f"withcap {n}")
+    live = list(range(n))
+    for k in live:
+        ins(k)
+    rng.shuffle(live)
+    gone = live[: n // 2 + 1 + rng.randrange(0, max(1, n // 4))]
+    for k in gone:
+        rem(k)
+    live = [k for k in live if k not in gone]
+    lines.append("tcapacity" if table else "capacity")
+    if switch_rule:
+        lines += switch_rule.split(";")     # from here on the hasher / Eq is inconsistent
+    nxt = n
+    for _ in range(rng.choice([n // 2, n // 2 + 2])):     # uses up growth_left, then rehashes in place
+        if len(live) >= n - 1:
+            break
+        ins_fresh(nxt); live.append(nxt); nxt += 1
+        if rng.random() < 0.15 and live:
+            k = live.pop(rng.randrange(len(live))); rem(k)
+    lines.append("tcapacity" if table else "capacity")
+    for k in range(nxt + 2):
+        get(k)
+    if table:
+        for k in rng.sample(range(nxt), min(6, nxt)):
+            lines.append(f"titerhash {k}")
+        lines.append("titer"); lines.append("tlen")
+    else:
+        lines.append("iter"); lines.append("len")
+    return f"=== {name} plan={plan} nkeys={nk}\n" + "\n".join(lines) + "\n"
+
+def make_stale_slot_script(rng, name, gw=16, kind=None):
+    """A VacantEntry whose insertion rehashes in place: the table is at exact capacity with at least half
+    tombstones; the new key's home group is full of live elements that are DISPLACED there (their home is
+    the last group, now all tombstones), so its probe passes that group and finds a true EMPTY byte in the
+    next one; growth_left is 0, so the insertion reserves first, which rehashes in place: the displaced
+    elements go home, the new key's home group becomes EMPTY, and the slot found before the reserve is no
+    longer on the key's probe chain.  Every entry-style insertion API is used for the new key."""
+    kind = kind or rng.choice(["map-drop", "map-plain"])
+    nb = rng.choice([4 * gw, 8 * gw] if gw == 16 else [4 * gw, 8 * gw, 16 * gw])
+    cap = nb * 7 // 8
+    amin = max(gw - nb // 8, 2)
+    a = rng.randrange(amin, max(amin + 1, gw - 3))
+    nfill = cap - 2 * gw - a
+    tags = list(range(1, 120)); rng.shuffle(tags)
+    def hv(i, pos):
+        return ((tags[i % len(tags)] & 0x7F) << 57) | ((rng.getrandbits(30) << 20) & ~(nb - 1) & ((1 << 57) - 1)) | pos
+    keys, hashes = [], {}
+    C = list(range(0, 2 * gw))                                   # home: the last group
+    A = list(range(2 * gw, 2 * gw + a))                          # home: bucket 0 (group 0 is taken by displaced C's)
+    F = list(range(2 * gw + a, 2 * gw + a + nfill))              # fillers at their own homes after group 1
+    fresh = list(range(2 * gw + a + nfill, 2 * gw + a + nfill + 3))
+    for i, k in enumerate(C): hashes[k] = hv(k, nb - gw)
+    for k in A: hashes[k] = hv(k, 0)
+    for j, k in enumerate(F): hashes[k] = hv(k, 2 * gw + j)
+    for k in fresh: hashes[k] = hv(k, rng.choice([0, 0, 1, gw - 1]))
+    nk = fresh[-1] + 3
+    for k in range(nk):
+        hashes.setdefault(k, hv(k, rng.randrange(nb)))
+    lines = [f"kind {kind}"] + [f"hash {k} {hashes[k]}" for k in range(nk)]
+    stamp = [0]
+    def st():
+        stamp[0] += 1
+        return stamp[0]
+    lines.append(f"withcap {cap}")
+    for k in C + A + F:
+        lines.append(f"insert {k} {st()} {k % 97}")
+    lines.append("capacity"); lines.append("len")
+    # tombstones: the C's that sit in their home group, and fillers, until the next insertion rehashes in place
+    need = cap // 2 + 1
+    gone = C[:gw] + F[: max(0, need - gw)]
+    if rng.random() < 0.5:
+        rng.shuffle(gone)
+    for k in gone:
+        lines.append(f"remove {k}")
+    lines.append("capacity")
+    k = fresh[0]
+    c = rng.choice(["entry_or_insert", "entry_insert", "tryinsert", "entry_and_modify", "eref_or_insert", "eref_insert", "raw_or_insert", "raw_insert",
+                    "rentry_or_insert", "rentry_insert", "insert"])
+    if c == "entry_and_modify":
+        lines.append(f"entry_and_modify {k} {st()} 1 {k % 97}")
+    else:
+        lines.append(f"{c} {k} {st()} {k % 97}")
+    for q in [k] + rng.sample(C[gw:] + A, 4) + [fresh[1]]:
+        lines.append(rng.choice(["get", "contains", "getkv"]) + f" {q}")
+    lines.append(f"entry_drop {k} {st()}"); lines.append(f"entry_or_insert {k} {st()} 5")
+    lines.append("len"); lines.append("iter")
+    for q in range(nk):
+        lines.append(f"get {q}")
+    return f"=== {name} plan=stale nkeys={nk}\n" + "\n".join(lines) + "\n"
 
 ARMS = ["hashpanic_nth", "hashpanic_nth", "hashpanic_key", "eqpanic_nth", "droppanic_nth", "clonepanic_nth", "predpanic_nth", "refuse_nth"]
 
@@ -578,9 +740,12 @@ def make_fault_matrix_script(rng, name, kind=None):
             for k in rng.sample(range(n), rng.randrange(1, n // 2)):
                 g.op_remove(k)
         if op == "o_clone_from":
-            g.emit("o_clone")            # the other map gets contents to be cloned / dropped
-            for k in rng.sample(range(60), 5):
-                g.op_insert(k)
+            if rng.random() < 0.4:
+                g.emit("o_salt 0")       # the source is a map that never allocated: clone_from only releases the target
+            else:
+                g.emit("o_clone")        # the other map gets contents to be cloned / dropped
+                for k in rng.sample(range(60), 5):
+                    g.op_insert(k)
         kth = rng.choice([0, 0, 1, 1, 2, 3, 5])
         if op == "entry_closure":
             kth = 0
